@@ -62,11 +62,14 @@ def worker_main(args):
     logging.disable(logging.CRITICAL)
     import warnings
     warnings.simplefilter('ignore')
+    if '-bb' in (os.environ.get('VERIF_INTERP_FLAGS') or '').split():
+        warnings.filterwarnings('error', category=BytesWarning)      # what -bb means; the line above would undo it
     from vlib import ctx as ctxmod, reach
     shard, nshards = (int(x) for x in args.worker.split('/'))
     ctx = ctxmod.Ctx(args.prop, args.tier, args.seed, shard, nshards,
                      replay=bool(args.replay))
     faulthandler.enable()
+    ctx.h('interpreter flags of the worker', os.environ.get('VERIF_INTERP_FLAGS') or '(none)')
     try:
         import oslo_utils
         loc = os.path.realpath(os.path.dirname(oslo_utils.__file__))
@@ -153,10 +156,23 @@ def run_parent(args):
     env['VERIF_SCRATCH'] = scratch
     env['PYTHONDONTWRITEBYTECODE'] = '1'
     procs = []
+    # interpreter settings are a workload dimension too: a check may name interpreter flag sets (python -O strips
+    # asserts, -bb makes str/bytes comparisons errors) that are cycled over its shards; a violation records the flags
+    # of the worker that saw it and a replay runs under the same flags
+    flagsets = getattr(mod, 'INTERPRETER_FLAGS', None) or [[]]
+    replay_flags = None
+    if args.replay:
+        try:
+            with open(args.replay) as f:
+                replay_flags = (json.load(f).get('interp_flags') or '').split()
+        except Exception:  # noqa
+            replay_flags = []
     try:
         for i in range(nshards):
             out = os.path.join(scratch, 'part-%d.json' % i)
-            cmd = [PYTHON, '-m', 'vlib.runner', prop, '--tier', args.tier,
+            flags = replay_flags if replay_flags is not None else list(flagsets[i % len(flagsets)])
+            env = dict(env, VERIF_INTERP_FLAGS=' '.join(flags))
+            cmd = [PYTHON] + flags + ['-m', 'vlib.runner', prop, '--tier', args.tier,
                    '--seed', str(args.seed), '--worker', '%d/%d' % (i, nshards),
                    '--out', out]
             if args.replay:
